@@ -1080,7 +1080,7 @@ func runScenario(r *vf.Run, sc scenario, pool []*keys.Identity) {
 func TestCheck(t *testing.T) {
 	r := vf.Start(t, "C05", vf.FaultEnumeration)
 	defer r.Finish()
-	r.SetRule("scenario = (request kind in {Controller.DialPeerAddr, DialTptAddr directive, EstablishLinkWithPeer with a static peer map}) x (service sequence of address A over {X, impostor Y, nobody}, all sequences of length <= 3 without equal neighbours; thorough: plus PRNG sequences up to length 6) [+ variants in which a request for Y at A is satisfied first and X is requested while that link holds the address, + variants in which a first dial of A (unconstrained / requiring Y / requiring X, made through the controller resp. the transport's DialPeer) is held in flight by the harness' network while the request for X is made and released once the dial for X is parked behind it (goroutine state) with X resp. Y answering, + variants with a competing request for Y at the same address, + variants that repeat the request while the link to X is still up, + (hook tc.linkdialer.result) the link is lost while the link dialer is held between obtaining and recording its result]. Real transport controller + real pconn/quic transports over an in-memory datagram switch, resp. real conn (stream) transports over in-memory pipes, whose service table the harness rebinds between phases. A phase is left only when its observation point was reached (impostor completed handshakes / datagrams to A were dropped / link to X exists and the request returned); a scenario is non-trivial when all its phases reached it. Oracle (ground truth = the harness' service table): every success value of the request names X and appears only after X served A; while X serves A and a request is outstanding a link to X is eventually there -- refuted by a stuck state (no link to X, no goroutine in any dial routine on 5 consecutive observation points after the traffic counter towards A has been silent for 10), a watchdog expiry is only inconclusive.")
+	r.SetRule("scenario = (request kind in {Controller.DialPeerAddr, DialTptAddr directive, EstablishLinkWithPeer with a static peer map}) x (service sequence of address A over {X, impostor Y, nobody}, all sequences of length <= 3 without equal neighbours; thorough: plus 120 PRNG sequences of length 4-6) [+ variants in which a request for Y at A is satisfied first and X is requested while that link holds the address, + variants in which a first dial of A (unconstrained / requiring Y / requiring X, made through the controller resp. the transport's DialPeer) is held in flight by the harness' network while the request for X is made and released once the dial for X is parked behind it (goroutine state) with X resp. Y answering, + variants with a competing request for Y at the same address, + variants that repeat the request while the link to X is still up, + (hook tc.linkdialer.result) the link is lost while the link dialer is held between obtaining and recording its result]. Real transport controller + real pconn/quic transports over an in-memory datagram switch, resp. real conn (stream) transports over in-memory pipes, whose service table the harness rebinds between phases. A phase is left only when its observation point was reached (impostor completed handshakes / datagrams to A were dropped / link to X exists and the request returned); a scenario is non-trivial when all its phases reached it. Oracle (ground truth = the harness' service table): every success value of the request names X and appears only after X served A; while X serves A and a request is outstanding a link to X is eventually there -- refuted by a stuck state (no link to X, no goroutine in any dial routine on 5 consecutive observation points after the traffic counter towards A has been silent for 10), a watchdog expiry is only inconclusive.")
 	r.Assume("the link's reported remote peer is authentic (that is C03)")
 	r.Assume("goroutines of a scenario are found by an inherited pprof label; dial goroutines without label make the stuck detector abstain")
 
@@ -1146,7 +1146,8 @@ func TestCheck(t *testing.T) {
 	}
 	if !r.Quick() {
 		seen := map[string]bool{}
-		for len(seen) < 250 {
+		// there are only 24 + 48 + 96 = 168 sequences of length 4..6 without equal neighbours
+		for len(seen) < 120 {
 			l := 4 + rng.IntN(3)
 			b := make([]byte, 0, l)
 			for len(b) < l {
